@@ -62,7 +62,15 @@ type Contract struct {
 	Used       bool
 }
 
+// SpecFunc is an uninterpreted function that exists only in specifications.
+type SpecFunc struct {
+	Name   string
+	Params []ast.Expr
+	Result ast.Expr
+}
+
 type ContractSet struct {
+	SpecFuncs map[string]*SpecFunc
 	Funcs   map[string]*Contract
 	Order   []string
 	Defines map[string]*Define
@@ -80,12 +88,12 @@ type Lemma struct {
 	Line    int
 }
 
-var kwRe = regexp.MustCompile(`^(func|extern|lemma|emits|requires|ensures|invariant|modifies|ghost|define|pure|inline|trusted|assume|prove)\b`)
+var kwRe = regexp.MustCompile(`^(func|extern|lemma|emits|specfunc|requires|ensures|invariant|modifies|ghost|define|pure|inline|trusted|assume|prove)\b`)
 var propRe = regexp.MustCompile(`^\[([A-Z0-9, ]+)\]\s*`)
 var invRe = regexp.MustCompile(`^invariant\[(\d+)\]\s*`)
 
 func newContractSet() *ContractSet {
-	return &ContractSet{Funcs: map[string]*Contract{}, Defines: map[string]*Define{}}
+	return &ContractSet{Funcs: map[string]*Contract{}, Defines: map[string]*Define{}, SpecFuncs: map[string]*SpecFunc{}}
 }
 
 type rawClause struct {
@@ -139,6 +147,29 @@ func (cs *ContractSet) ParseFile(path string) error {
 			continue
 		case "func", "extern", "lemma":
 			skipping = false
+		case "specfunc":
+			// specfunc name(T1, T2) R
+			fe, err := parser.ParseExpr("func" + r.text[strings.Index(r.text, "("):] + "{}")
+			if err != nil {
+				return fmt.Errorf("%s: specfunc: %v", loc, err)
+			}
+			ft := fe.(*ast.FuncLit).Type
+			sf := &SpecFunc{Name: strings.TrimSpace(r.text[:strings.Index(r.text, "(")])}
+			for _, p := range ft.Params.List {
+				n := len(p.Names)
+				if n == 0 {
+					n = 1
+				}
+				for i := 0; i < n; i++ {
+					sf.Params = append(sf.Params, p.Type)
+				}
+			}
+			if ft.Results == nil || len(ft.Results.List) != 1 {
+				return fmt.Errorf("%s: specfunc needs exactly one result", loc)
+			}
+			sf.Result = ft.Results.List[0].Type
+			cs.SpecFuncs[sf.Name] = sf
+			continue
 		}
 		if skipping {
 			continue
